@@ -548,6 +548,15 @@ def c15_jobs(tier):
         jobs.append({"pkgdir": "align/pals/dp", "func": "VerifC15_AlignTraps", "sched": "det", "floatsplit": True, "math": True,
                      "params": {"tlen": t, "qlen": q, "minlen": ml, "minid": mi, "k": k}, "timeout_s": 900 if tier == "quick" else 3000})
     # whole pipeline with explicit parameters: (|T|, |Q|, k, n, e, offset, minimum hit length, minimum identity %)
+    # gapped hits: fixed template target, query = template with a deletion or an insertion, one or two symbolic query letters:
+    # (|T|, del, ins, position, symbolic-position mask, minimum hit length, minimum identity %, k)
+    gapped = [(9, 1, 0, 4, 4, 4, 60, 2), (9, 1, 0, 4, 64, 6, 60, 2), (8, 0, 1, 4, 4, 9, 60, 2), (8, 0, 1, 4, 2, 8, 60, 2)]
+    if tier != "quick":
+        gapped += [(10, 1, 0, 5, 20, 5, 60, 2), (12, 2, 0, 6, 8, 6, 60, 2)]
+    for (t, dl, ins, pos, mask, ml, mi, k) in gapped:
+        jobs.append({"pkgdir": "align/pals/dp", "func": "VerifC15_Gapped", "sched": "det", "floatsplit": True, "math": True,
+                     "params": {"tlen": t, "del": dl, "ins": ins, "delpos": pos, "sym": mask, "minlen": ml, "minid": mi, "k": k},
+                     "timeout_s": 900 if tier == "quick" else 3000})
     # whole pipeline: the query carries a copy of target[tpos:tpos+plen] at qpos (fewer free letters; the free-query 4x4 instance needs > 900 s)
     pipes = [(4, 4, 2, 3, 0, 1, 3, 60, 3, 1, 0)] if tier == "quick" else [(4, 4, 2, 3, 0, 1, 3, 60, 3, 1, 0), (5, 5, 2, 4, 0, 2, 4, 75, 4, 0, 1), (4, 4, 2, 3, 0, 1, 3, 60, 0, 0, 0)]
     for (t, q, k, n, e, off, ml, mi, plen, tpos, qpos) in pipes:
@@ -562,8 +571,8 @@ CHECKS["C15"] = {
     "functions": ["dp.{NewAligner,(*Aligner).AlignTraps}, dp.kernel.{alignRecursion,traceForward,traceReverse,allocateVectors}, dp.Hits sorting", "pals.{New,(*PALS).BuildIndex,Align}, filter.{Filter,NewMerger,MergeFilterHit,FinaliseMerge}, kmerindex, morass (in-memory)",
                   "float64 arithmetic of the identity test executed on concrete values: every int-to-float conversion case-splits its symbolic integer operand (exact, no float theory)"],
     "explanation": "FIRST HALF of the property only (hits are real alignments): both sequences symbolic over {a,c,g,t}; every hit returned must lie inside both sequences, be at least the minimum hit length on both, report an error within 1-minId, and a score not above the optimal global alignment score (match +1, mismatch/indel -3; Needleman-Wunsch over the symbolic letters in the harness) of the two hit regions. (A) the banded aligner alone on one trapezoid covering the whole comparison, (B) the whole pipeline with explicit filter and DP parameters.",
-    "level_note": "trusted: gosym's Go SSA semantics (validated each run by native replay of solver witnesses), z3 4.8.12 (sampled queries re-decided by z3 5.1 and cvc5), the harness's Needleman-Wunsch. The claim is limited to the listed tiny shapes, at which gapped hits cannot occur (a gap costs 3, a match earns 1), so the check has little power against changes that only matter at scale; the second half of the property (planted repeats are recovered, complement strand, self comparison) is NOT covered: it speaks about random flanking sequence and kb-scale inputs.",
-    "outside": "the recall half of the property (planted repeats, complement-strand search, trivial self match); sequences longer than 5; PALS.Optimise (parameters are given explicitly); hits with gaps (unreachable at these sizes)",
+    "level_note": "trusted: gosym's Go SSA semantics (validated each run by native replay of solver witnesses), z3 4.8.12 (sampled queries re-decided by z3 5.1 and cvc5), the harness's Needleman-Wunsch. The claim is limited to the listed shapes; with all letters symbolic (up to 6x6) gapped hits cannot occur (a gap costs 3, a match earns 1), they are exercised only by the template instances with one or two symbolic letters, so the check has limited power against changes that only matter at scale; the second half of the property (planted repeats are recovered, complement strand, self comparison) is NOT covered: it speaks about random flanking sequence and kb-scale inputs.",
+    "outside": "the recall half of the property (planted repeats, complement-strand search, trivial self match); all-symbolic sequences longer than 6; gapped hits beyond the listed template instances (one or two symbolic letters); PALS.Optimise (parameters are given explicitly)",
 }
 
 
